@@ -30,6 +30,10 @@ CORPORA = {
                      family="restbind", trace="RestBindTrace.tla", tracecfg="RestBindTrace.cfg"),
     "stream_get": dict(gen="MCStream.tla", cfg={"quick": "stream_get_quick.cfg", "thorough": "stream_get_thorough.cfg"},
                        family="stream", trace="StreamTrace.tla", tracecfg="StreamTrace.cfg"),
+    "history": dict(gen="History.tla", cfg={"quick": "history_quick.cfg", "thorough": "history_thorough.cfg"},
+                    family="history", trace="StreamTrace.tla", tracecfg="StreamTrace.cfg"),
+    "conc": dict(gen="History.tla", cfg={"quick": "conc_quick.cfg", "thorough": "conc_thorough.cfg"},
+                 family="conc", trace="StreamTrace.tla", tracecfg="StreamTrace.cfg"),
     "stream_headers": dict(gen="MCStream.tla", cfg={"quick": "stream_headers_quick.cfg", "thorough": "stream_headers_thorough.cfg"},
                            family="stream", trace="StreamTrace.tla", tracecfg="StreamTrace.cfg"),
 }
@@ -51,6 +55,9 @@ PROPS = {
     "C11": dict(corpora=["stream_hostile", "stream_faults", "stream_errors", "stream_reject"], prefix="C11."),
     "C12": dict(corpora=["timeout"], prefix="C12."),
     "C13": dict(corpora=["stream_matrix", "stream_reject"], prefix="C13."),
+    "C14": dict(corpora=["conc"], prefix="C14.", design=[("MCPool.tla", "pool_conc2.cfg")],
+                design_thorough=[("MCPool.tla", "pool_conc.cfg")]),
+    "C15": dict(corpora=["history"], prefix="C15.", design=[("MCPool.tla", "pool_seq.cfg")]),
     "C17": dict(corpora=["config"], prefix="C17."),
     "C19": dict(corpora=["stream_get", "stream_matrix"], prefix="C19."),
     "C18": dict(corpora=["stream_reject", "stream_matrix", "stream_faults"], prefix="C18."),
@@ -118,10 +125,11 @@ def run_corpus(name, tier, seed, work, binary):
     t1 = time.time()
     vlib.run_harness(binary, c["family"], scn_file, trace_file, seed)
     log("[%s] E3 done in %.1fs; E4: trace validation" % (name, time.time() - t1))
+    ntrace = sum(1 for _ in open(trace_file))
     nsh = c.get("shards", 1)
     if nsh <= 1:
         touts = [vlib.run_tlc(work, c["trace"], c["tracecfg"], env={"VERIF_TRACE": trace_file}, workers=1, timeout=3600)]
-        counts = [len(scns)]
+        counts = [ntrace]
     else:
         # the judge is heavy for this family: validate shards of the trace in parallel TLC processes
         import concurrent.futures
@@ -153,7 +161,7 @@ def run_corpus(name, tier, seed, work, binary):
             if "drift" in o:
                 for f in o["f"]:
                     drift[f] += 1
-    return dict(name=name, gen=g, scns=scns, trace_file=trace_file, bad=bad, nlines=len(scns), drift=dict(drift))
+    return dict(name=name, gen=g, scns=scns, trace_file=trace_file, bad=bad, nlines=ntrace, drift=dict(drift))
 
 
 def check(pid, tier, seed, work, t0):
@@ -170,7 +178,7 @@ def check(pid, tier, seed, work, t0):
     skipped = 0
     by_sid = {}
     design = {}
-    for module, cfg in prop.get("design", []):
+    for module, cfg in (prop.get("design_thorough") if tier == "thorough" and prop.get("design_thorough") else prop.get("design", [])):
         # E1 only: exhaustive check of a byte-grain / interleaving model that has no scenarios to emit
         log("[design] tlc %s %s" % (module, cfg))
         g = vlib.run_tlc(work, module, cfg, timeout=3600)
